@@ -127,16 +127,17 @@ Definition rreconstrain (r : rec) (dim : Z) (size : option Z) : rec * option xer
       (of_shaped r1 s', e)
   end.
 
-(* infrastructure.py:1368-1372 (RecordTensor.value setter): ShapedTensor's setter, then - when the new
-   value is ignored - an access to the name-mangled attribute self.__name, which does not exist on a
-   RecordTensor: AttributeError after the assignment, pointer not reset *)
+(* infrastructure.py:1368-1372 (RecordTensor.value setter): ShapedTensor's setter (which may refuse:
+   None over a parameter, an incompatible tensor on a live attribute), then - when the value now stored
+   is ignored (None, or no elements and at most one dimension) - the pointer is rewound to 0; a
+   non-ignored value leaves the pointer where it was *)
 Definition rset_value (r : rec) (v : storage) : rec * option xerr :=
   let '(s', e) := set_value (to_shaped r) (data_of v) in
   match e with
   | Some x => (r, Some x)
   | None =>
-      let r' := set_rg r (mkRing (N (rg r)) (ptr (rg r)) v) in
-      if ignore (data_of v) then (r', Some XAttr) else (r', None)
+      if ignore (data_of v) then (set_rg r (mkRing (N (rg r)) 0 v), None)
+      else (set_rg r (mkRing (N (rg r)) (ptr (rg r)) v), None)
   end.
 
 (* infrastructure.py:1477-1542 (deinitialize(False)): empty tensor of the same data type, pointer 0 *)
